@@ -274,6 +274,14 @@ class Facts:
         if c is not None and c.im == 0:
             return {"+" if c.re > 0 else "-" if c.re < 0 else "0"}
         s = manifest_sign(e)
+        if "-" in s:
+            # quantities that cannot be negative whatever their arguments: a remainder modulo a positive number, counts, lengths
+            cm = e.as_mono()
+            if cm is not None and cm[0].im == 0 and len(cm[1]) == 1 and cm[1][0][1] == 1:
+                a = cm[1][0][0]
+                nonneg = a.kind == "fn" and (a.name in ("count", "countwhere", "len", "nunique", "abs") or (a.name == "mod" and len(a.args) == 2 and isinstance(a.args[1], Expr) and manifest_sign(a.args[1]) <= {"+"}))
+                if nonneg:
+                    s = s & ({"0", "+"} if cm[0].re > 0 else {"0", "-"})
         if "0" in s:
             # a single product whose every factor is a reciprocal (or flagged positive) cannot vanish
             x = e.expand() if hasattr(e, "expand") else e
